@@ -301,7 +301,7 @@ def mutate_node(rng, l, T, tg):
         fs = list(l[2])
         if fs:
             j = rng.randrange(len(fs))
-            T = dict(by_name[l[1]][2])[fs[j][0]] if l[1] in by_name else None
+            T = dict(by_name[l[1]][2]).get(fs[j][0]) if l[1] in by_name and by_name[l[1]][0] == "struct" else None
             other = value(rng, T, by_name) if T is not None else fs[j][1]
             fs.insert(rng.randint(0, len(fs)), (fs[j][0], other))
         return ("st", l[1], fs), m
